@@ -1,4 +1,4 @@
-\* exhaustive design check, thorough tier: six worlds, argument lists <= 3, every family, one transaction
+\* exhaustive design check, thorough tier: ten worlds (WBig), argument lists <= 3 where the calls live and <= 2 elsewhere, one transaction
 SPECIFICATION Spec
 CONSTANTS
   Worlds <- WBig
